@@ -175,7 +175,8 @@ func (r *Runner) Run(rslv resolver.Resolver) (*RunnerResult, error) {
 	// Note: this context is not Go context, our linter context :)
 	ctx := lcontext.New(options...)
 	vcl, err := r.run(ctx, main, RunModeLint)
-	if err != nil && !r.config.Json {
+	// On JSON mode, only syntax errors are stored in the result instead of being returned
+	if err != nil && (!r.config.Json || err != ErrParser) {
 		return nil, err
 	}
 
